@@ -321,8 +321,8 @@ def run_capi_faults(mode):
                 case = {"capi_faults": mode, "fault_at": i, "persist": persist}
                 if lost and not reported:
                     errs.append(({"class": "silent_loss", "api": "C", "persist": bool(persist)},
-                                 "C API, ENOSPC %s at op %d: samples %s of calls that returned 0 are not readable, and every call - the close included - returned 0" % (
-                                     "persistent from" if persist else "once", i, lost[:4])))
+                                 "C API, ENOSPC (%s) at op %d: samples %s of calls that returned 0 are not readable, and every call - the close included - returned 0" % (
+                                     "disk stays full from there on" if persist else "once", i, lost[:4])))
                 for k, d_ in errs:
                     part["violations"].append(core.Violation(dict(k, api="C"), case, d_))
                 part["states"].add(core.canon(("capi", mode, i, persist)))
